@@ -310,6 +310,8 @@ impl Check for C18 {
         let count = prop_oneof![
             5 => (0u32..12).prop_map(|n| n.to_string()),
             1 => proptest::sample::select(vec!["", "abc", "-1", "5.5", "99999999999", " 5", "007"]).prop_map(String::from),
+            // legal u32 counts beyond i32
+            1 => proptest::sample::select(vec!["2147483647", "2147483648", "3000000000", "4294967295", "4294967294"]).prop_map(String::from),
         ];
         let meta = (proptest::collection::btree_map(key.clone(), val, 1..5), proptest::option::weighted(0.8, count)).prop_map(|(mut m, c)| {
             if let Some(c) = c {
@@ -320,7 +322,7 @@ impl Check for C18 {
         let target = (0u8..250, meta).prop_map(|(n, meta)| TargetSpec { identifier: format!("srv-{n}"), addr: format!("10.0.0.{n}:25565"), meta });
         let strat = prop_oneof![
             2 => Just(Strat::Any),
-            3 => (prop_oneof![4 => Just("players".to_string()), 1 => Just("tier".to_string()), 1 => Just("missing".to_string())], 0u32..=10).prop_map(|(field, max_players)| Strat::PlayerFill { field, max_players }),
+            3 => (prop_oneof![4 => Just("players".to_string()), 1 => Just("tier".to_string()), 1 => Just("missing".to_string())], prop_oneof![6 => 0u32..=10, 1 => proptest::sample::select(vec![u32::MAX, u32::MAX - 1, 1u32 << 31, (1u32 << 31) - 1, 3_000_000_000])]).prop_map(|(field, max_players)| Strat::PlayerFill { field, max_players }),
         ];
         (
             proptest::collection::vec(entry, 0..=5),
